@@ -1,5 +1,6 @@
-(* C02 header table, definitions: one cell = the model's header cascade against the RFC rules for one context and one
-   value of the first two octets.  The exhaustive sweep is sharded over Proofs/WsRecvHeaderS*.v (4 contexts x 65536 each). *)
+(* C02 header table, definitions.  The model's header cascade and the RFC rules read the two octets only through the
+   fields FIN, RSV1-3, opcode, MASK and two tests on the 7-bit length (> 125, = 1); the table is proved over those fields
+   (exhaustive vm_compute sweep, 16 contexts x 2048 field combinations) and carried to octets by two 256-value sweeps. *)
 From Coq Require Import NArith List Bool Lia.
 From AV Require Import Model.Masker Gen.WsConsts Model.WsRecv.
 Import ListNotations.
@@ -38,14 +39,81 @@ Definition hviol_eqb (a b : hviol) : bool :=
 Lemma hviol_eqb_eq a b : hviol_eqb a b = true <-> a = b.
 Proof. destruct a, b; cbn; split; intros H; try reflexivity; try discriminate. Qed.
 
+(* the model cascade (hdr_viols) on abstract fields; the two length tests enter as booleans *)
+Definition hdr_body (cf : cfg) (ins fin : bool) (rsv op : N) (masked gt125 is1 : bool) : list hviol :=
+  vif (pd_rsv_nonzero rsv && negb (pmc cf && pd_rsv_is4 rsv)) HRsv ++
+  vif (isServer cf && requireMasked cf && negb masked) HUnmasked ++
+  vif (negb (isServer cf) && negb (acceptMasked cf) && masked) HMasked ++
+  (if pd_is_ctl op
+   then vif (negb fin) HCtlFragmented ++
+        vif gt125 HCtlLen ++
+        vif (pd_ctl_op_bad op) HCtlOpcode ++
+        vif (pd_is_close op && is1) HCloseLen1 ++
+        vif (pmc cf && pd_rsv_is4_ctl rsv) HCtlCompressed
+   else vif (pd_data_op_bad op) HDataOpcode ++
+        vif (negb ins && pd_op_is_cont op) HContOutside ++
+        vif (ins && pd_op_not_cont op) HNonContInside ++
+        vif (pmc cf && pd_rsv_is4_cont rsv && ins) HContCompressed).
+Lemma hdr_viols_body cf ins b0 b1 :
+  hdr_viols cf ins b0 b1 =
+  hdr_body cf ins (hb_fin b0) (hb_rsv b0) (hb_opcode b0) (hb_masked b1)
+           (pd_ctl_len_bad (hb_len1 b1)) (pd_len1_is1 (hb_len1 b1)).
+Proof. reflexivity. Qed.
+
+(* the RFC rules on the same abstraction *)
+Definition rfc_rule_g (cf : cfg) (in_frag fin rsv1 rsv2 rsv3 : bool) (op : N) (masked gt125 is1 : bool) (r : hviol) : bool :=
+  let is_ctl := 8 <=? op in
+  match r with
+  | HRsv => rsv2 || rsv3 || (rsv1 && negb (pmc cf))
+  | HUnmasked => isServer cf && requireMasked cf && negb masked
+  | HMasked => negb (isServer cf) && negb (acceptMasked cf) && masked
+  | HCtlFragmented => is_ctl && negb fin
+  | HCtlLen => is_ctl && gt125
+  | HCtlOpcode => inr 11 15 op
+  | HDataOpcode => inr 3 7 op
+  | HCloseLen1 => (op =? 8) && is1
+  | HCtlCompressed => pmc cf && is_ctl && rsv1
+  | HContCompressed => pmc cf && negb is_ctl && rsv1 && in_frag
+  | HContOutside => (op =? 0) && negb in_frag
+  | HNonContInside => negb is_ctl && negb (op =? 0) && in_frag
+  | HLen16NonMin | HLen64Huge | HLen64NonMin => false
+  end.
+Lemma rfc_rule_fg cf in_frag fin rsv1 rsv2 rsv3 op masked len7 r :
+  rfc_rule_f cf in_frag fin rsv1 rsv2 rsv3 op masked len7 r =
+  rfc_rule_g cf in_frag fin rsv1 rsv2 rsv3 op masked (125 <? len7) (len7 =? 1) r.
+Proof. destruct r; reflexivity. Qed.
+Definition rfc_body (cf : cfg) (ins fin rsv1 rsv2 rsv3 : bool) (op : N) (masked gt125 is1 : bool) : list hviol :=
+  filter (rfc_rule_g cf ins fin rsv1 rsv2 rsv3 op masked gt125 is1) header_rules.
+Lemma rfc_verdict_body cf ins b0 b1 :
+  rfc_header_verdict cf ins b0 b1 =
+  rfc_body cf ins (bit b0 7) (bit b0 6) (bit b0 5) (bit b0 4) (b0 mod 16) (bit b1 7) (125 <? b1 mod 128) (b1 mod 128 =? 1).
+Proof. unfold rfc_header_verdict, rfc_body. apply filter_ext. intros r. apply rfc_rule_fg. Qed.
+
+Definition bits_rsv (r1 r2 r3 : bool) : N := (if r1 then 4 else 0) + (if r2 then 2 else 0) + (if r3 then 1 else 0).
+
 (* one cell of the table: the model flags the header iff an RFC rule is broken, and every violation the model
    raises is a broken RFC rule (the model never invents a reason) *)
-Definition cell_ok (sv mo pm ins : bool) (b0 b1 : N) : bool :=
+Definition fcell_ok (sv mo pm ins fin r1 r2 r3 : bool) (op : N) (masked gt125 is1 : bool) : bool :=
   let cf := ctx_cfg sv mo mo pm in
-  let vs := hdr_viols cf ins b0 b1 in
-  let rv := rfc_header_verdict cf ins b0 b1 in
+  let vs := hdr_body cf ins fin (bits_rsv r1 r2 r3) op masked gt125 is1 in
+  let rv := rfc_body cf ins fin r1 r2 r3 op masked gt125 is1 in
   Bool.eqb (nonemptyv vs) (nonemptyv rv) && forallb (fun v => existsb (hviol_eqb v) rv) vs.
 
 Definition bools := [true; false].
-Definition sweep_ctx (sv mo pm ins : bool) : bool :=
-  forallb (fun b0 => forallb (fun b1 => cell_ok sv mo pm ins b0 b1) (rangeN 256)) (rangeN 256).
+Definition allb (f : bool -> bool) : bool := forallb f bools.
+Lemma allb_spec f : allb f = true -> forall b, f b = true.
+Proof. unfold allb, bools. cbn. intros H b. apply andb_true_iff in H. destruct H as [H1 H2]. rewrite andb_true_r in H2. destruct b; assumption. Qed.
+
+Definition field_table : bool :=
+  allb (fun sv => allb (fun mo => allb (fun pm => allb (fun ins => allb (fun fin => allb (fun r1 => allb (fun r2 =>
+  allb (fun r3 => allb (fun masked => allb (fun gt => allb (fun is1 =>
+    forallb (fun op => fcell_ok sv mo pm ins fin r1 r2 r3 op masked gt is1) (rangeN 16)))))))))))).
+Lemma field_sweep : field_table = true.
+Proof. vm_compute. reflexivity. Qed.
+
+(* octets to fields *)
+Definition b0_ok (b : N) : bool :=
+  Bool.eqb (hb_fin b) (bit b 7) && (hb_rsv b =? bits_rsv (bit b 6) (bit b 5) (bit b 4)) && (hb_opcode b =? b mod 16) && (b mod 16 <? 16).
+Definition b1_ok (b : N) : bool := Bool.eqb (hb_masked b) (bit b 7) && (hb_len1 b =? b mod 128).
+Lemma b0_sweep : forallb b0_ok (rangeN 256) = true. Proof. vm_compute. reflexivity. Qed.
+Lemma b1_sweep : forallb b1_ok (rangeN 256) = true. Proof. vm_compute. reflexivity. Qed.
